@@ -15,7 +15,7 @@ def run(prop, tier):
     acc = common.Acc()
     common.run_harness(exe(), ["all", 0 if tier == "quick" else 1], acc, "eintr_fault all", timeout=3000, crash_prop=prop)
     probe = {}
-    if tier == "thorough" and not acc.viols:
+    if tier == "thorough" and not acc.viols and not acc.engine_errors:
         # binding of the injection convention to reality: one real handled signal per case (non-deciding; a mismatch is an engine error)
         px = build.build_exe("signal_probe", "plain", ["harness/signal_probe.c"])
         r = subprocess.run([px], stdout=subprocess.PIPE, stderr=subprocess.STDOUT, text=True, timeout=120)
